@@ -27,6 +27,7 @@ EXPLANATION = (
     ' Added after seed round 3: (9) FOCUS-FWD over all widget modules - a focus map further down is applied exactly when the widget is in focus because every container / decoration passes the flag on; (10) ACCUM on the rle walkers that cut attribute runs.'
     ' Round 4: (11) LOOPFRESH and (12) PAIRLEN on apply_text_layout / apply_target_encoding (attribute and charset run lengths are the length of the piece just appended); (13) no display code indexes a palette entry with a constant position.'
     ' Round-4 triage: (14) NONE-SENTINEL on attribute maps; (15) _tagmarkup_recurse reads the last run only when both run lists are non-empty; (16) the 88-colour fallback helper of register_palette_entry examines every comma-separated setting of a description. Round 5: (17) the rendition model of draw_screen (shared with C04.13); (18) LayoutSegment.offs (None = alignment padding, 0 = first character) is never tested for truthiness by its consumers; (19) every emitting branch of the segment loop of apply_text_layout records attribute and charset runs.'
+    ' Round 6: (16) the hN bound of the 88-colour fallback lies between the number of basic colours and the number of leading colour numbers on which the folded 88- and 256-colour palettes agree; (20) INV restricted to Text / AttrMap / AttrWrap / SelectableIcon / Edit: every write of markup or attribute-map state invalidates (a retagged text with the same characters otherwise keeps its old attributes on screen).'
 )
 NOT_DECIDED = "Run-length alignment of attributes through layout and encoding, composition order of nested maps as a value statement, the SGR text produced for every AttrSpec and its decoding."
 ASSUMPTIONS = []
@@ -448,7 +449,13 @@ def run(ctx: Ctx):
     from ..rules import sentinel as _sentinel_mod
 
     r18 = _sentinel_mod.run_sentinel_consumers(ctx.p, "C17.18", "urwid.text_layout.LayoutSegment", ["urwid.canvas", "urwid.text_layout", "urwid.widget"], floor=1)
-    return [r17, r18, rule_charset_pad(ctx), rule_palette_order(ctx), rule_palette_notify(ctx), rule_palette_cache(ctx), rule_palette_total(ctx), rule_attrmap(ctx), r6, r7, r8, r9, r10, r11, r12, rule_palette_depth_index(ctx), _sentinel(ctx), rule_markup_index_guard(ctx), rule_desc_tokens(ctx)]
+    from ..rules import inv as _inv
+    from ..tables import INV_EXCEPTIONS as _INVX
+
+    # what is displayed with which attribute is widget state: the widgets that carry markup / attribute maps
+    # invalidate whenever that state is written (shared engine with C06.1a, restricted to these classes)
+    r20 = _inv.run_inv(ctx.p, "C17.20", floor_classes=3, floor_nontrivial=3, exceptions=_INVX, only_classes={"Text", "AttrMap", "AttrWrap", "SelectableIcon", "Edit"})
+    return [r17, r18, r20, rule_charset_pad(ctx), rule_palette_order(ctx), rule_palette_notify(ctx), rule_palette_cache(ctx), rule_palette_total(ctx), rule_attrmap(ctx), r6, r7, r8, r9, r10, r11, r12, rule_palette_depth_index(ctx), _sentinel(ctx), rule_markup_index_guard(ctx), rule_desc_tokens(ctx)]
 
 
 _CM = "urwid/display/common.py"
